@@ -33,7 +33,7 @@ def generate(rng, tier):
                               "desc": {"group": "conv", "method": name, "dtypes": "%d%d%d" % (xd, yd, dd)}})
         if x[0] == 0:
             # a dead bin in the abscissae (NaN): whatever the convention there, the result may not depend on what the heap held
-            xn = [0.5, float("nan"), 2.0, 3.0, 5.0]
+            xn = ([0.5, float("nan")] + [2.0 + 1.5 * k_ for k_ in range(len(y))])[:len(y)]
             for mi, name in enumerate(CONV):
                 for dd in (0, 2):
                     cases.append({"group": "conv", "method": mi, "name": name, "x": xn, "y": y, "dy": dy, "dt": [1, 1, dd, 1],
